@@ -4,8 +4,5 @@
 cd /verif
 echo "== thorough"; for i in 01 02 03 04 05 06 07 08 09 10 11 12 13 14 15 16 17 18 19; do ./check C$i --tier thorough 2>&1 | grep -E "thorough:|selftest:" | cut -c1-200; done | grep -E "selftest:|[1-9][0-9]* violation" 
 echo "== refactors (lines listed = false alarms)"
-cp seeded/MATRIX.json /tmp/MATRIX_keep.json
-mkdir -p /tmp/rfstage && rm -rf /tmp/rfstage/* && for d in refactors/*; do mkdir -p /tmp/rfstage/$(basename $d); cp $d/patch.diff /tmp/rfstage/$(basename $d)/; done
-python3 tools/seedmatrix.py /tmp/rfstage 2>&1 | cut -c1-200 | grep -v MISSED
-cp seeded/MATRIX.json /tmp/MATRIX_rf_last.json; cp /tmp/MATRIX_keep.json seeded/MATRIX.json
+python3 tools/seedmatrix.py --out /tmp/MATRIX_rf_last.json $(pwd)/refactors 2>&1 | cut -c1-200 | grep -v MISSED
 echo "== done"
